@@ -57,16 +57,22 @@ class Facts:
         self._defgraph = None
         self._trait_impl_index = None
 
-    def deep_body(self, f, only=None):
+    def deep_body(self, f, only=None, closures=False):
         """Body of f with its direct calls to crate-local functions inlined (inline.py, depth 3) -- for rules about the
         shape of an expression, which must not depend on whether a sub-expression sits behind an accessor.
-        `only`: regex restricting which callees are inlined."""
+        `only`: regex restricting which callees are inlined. `closures`: the direct calls of closures built in this very
+        body (`let rebase = |x| ..; rebase(a)`) are inlined too."""
         import inline, copy
-        key = ("deep", f["id"], only)
+        key = ("deep", f["id"], only, closures)
         if key not in self._bodies:
             g = copy.deepcopy(f)
             ids = {x["id"] for x in self.fns if "blocks" in x and x.get("kind") != "closure" and x["id"] != f["id"] and (only is None or re.search(only, x["name"]))}
-            inline.inline_into(self.fns, g, ids)
+            if closures:
+                inline.transparent_hosts.add(g["id"])
+            try:
+                inline.inline_into(self.fns, g, ids)
+            finally:
+                inline.transparent_hosts.discard(g["id"])
             self._bodies[key] = Body(self, g)
         return self._bodies[key]
 
@@ -422,6 +428,49 @@ def _fold(op, x, y):
                 "BitXor": x ^ y, "AddUnchecked": x + y, "SubUnchecked": x - y, "MulUnchecked": x * y}.get(op) if y < 256 or op not in ("Shl", "Shr") else None
     except (ValueError, OverflowError):
         return None
+
+
+def upper_bound_guards(b, target, srcs):
+    """the upper bounds a dominating comparison with a constant puts on a value before block `target` runs: for every
+    switch that dominates `target`, tests `v < C` / `v <= C` / `C > v` / `C >= v` (or the negation on the arm that
+    leaves) where the origins of v meet `srcs`, and whose other arm does not reach `target`, the largest v let
+    through. Returns [(switch block, bound)]."""
+    out = []
+    for s in range(b.n):
+        t = b.term(s)
+        if t["k"] != "switch" or s == target or b.is_cleanup(s) or not b.dominates(s, target):
+            continue
+        l = op_local(t["op"])
+        if l is None or 0 not in t["vals"]:
+            continue
+        false_arm = t["targets"][t["vals"].index(0)]
+        true_arm = t["otherwise"]
+        from_true = target in b.reachable(true_arm, avoid={s}) or true_arm == target
+        from_false = target in b.reachable(false_arm, avoid={s}) or false_arm == target
+        if from_true == from_false:
+            continue
+        for d in b.defs().get(l, []):
+            if d[0] != "stmt" or d[3]["k"] != "assign" or d[3]["rv"]["k"] != "bin":
+                continue
+            rv = d[3]["rv"]
+            op = rv["op"]
+            if op not in ("Lt", "Le", "Gt", "Ge"):
+                continue
+            ca, cb = op_const_deep(b, rv["a"]), op_const_deep(b, rv["b"])
+            if (ca is None) == (cb is None):
+                continue
+            v_op, c = (rv["a"], cb) if cb is not None else (rv["b"], ca)
+            if not (b.origins(v_op) & srcs):
+                continue
+            if ca is not None:  # C op v  ==  v op' C
+                op = {"Lt": "Gt", "Le": "Ge", "Gt": "Lt", "Ge": "Le"}[op]
+            if not from_true:  # the target runs when the test is false
+                op = {"Lt": "Ge", "Le": "Gt", "Gt": "Le", "Ge": "Lt"}[op]
+            if op == "Lt":
+                out.append((s, c - 1))
+            elif op == "Le":
+                out.append((s, c))
+    return out
 
 
 def place_fields(pl):
